@@ -1,3 +1,4 @@
 CONSTANTS MaxX = 3
+WithReqClose = FALSE
 SPECIFICATION MCSpec
 INVARIANTS TypeOK NoOverread CleanReuse NoReuseAfterClose OneReplyPerRequest FinalIndependent ClosedNotUsable
